@@ -36,8 +36,8 @@ Protocol (one line per request, ASCII):
 eff / nc letters: N None, F False, T True, 0 1 2 (ints), e "", x "x", l [], L [0], z 0.0, h 1.5 - the code's
               contract is truthiness, the oracle requests an effect iff the value is truthy
 colour token: N (None) | s:<code points> | i:<int> | ie:<int> (IntEnum member) | is:<int> (instance of an int subclass) |
-              f:<decimal> (a float) | t:<num,..> ('-' = empty; component with '.' = float, e<n> IntEnum, s<n> int
-              subclass) | tn: (namedtuple) | ts: (tuple subclass) | o (a bytes object)
+              f:<decimal> (a float) | ib:<0|1> (bool) | t:<num,..> ('-' = empty; component with '.' = float, e<n> IntEnum, s<n> int
+              subclass, b<0|1> bool) | tn: (namedtuple) | ts: (tuple subclass) | o (a bytes object)
 eff: five flag letters for bold, faint, underline, blink, crossed;  nc: one flag letter
 strings: comma separated code points, '-' = empty.
 """
@@ -59,7 +59,7 @@ THEOREMS = [
     "C09.chunk_shows", "C09.chunk_resets", "C09.text_shows", "C09.text_invalid",
     "C09.strip_plain", "C09.strip_chunk", "C09.strip_render", "C09.strip_text",
     "C09.chunks_show",
-    "C09.value_shows", "C09.ops_show", "C09.palette_invalid", "C09.abstraction_sound", "C09.hist_shows",
+    "C09.value_shows", "C09.given_shows", "C09.given_of_value", "C09.palette_invalid", "C09.abstraction_sound", "C09.hist_shows",
     "C09.calls_stateless", "C09.invalid_raises_always",
     "C09.bytes_same",
 ]
@@ -92,7 +92,10 @@ ASSUMPTIONS = ["colour ids of the CHText model (C08) stand for formatters with p
                "colon forms 38:5:n / 48:5:n (ITU T.416); bold and faint are independent attributes",
                "colour values are None, str, int (also IntEnum members and instances of other int subclasses: the model "
                "takes their int value), finite float, tuples (also namedtuples / tuple subclasses) of ints/floats or "
-               "objects of another hashable type (bytes); bool, list, tuples with non-numeric members, nan/inf and 'g'+<text int() accepts but that is not "
+               "objects of another hashable type (bytes); bool is an int kind (True = colour 1, False = colour 0; fix 6baf49c); list, dict and other unhashable "
+               "values and tuples with non-numeric members raise TypeError instead of ValueError in the real code: they are "
+               "kept out of the generated domain as a documented restriction of this check, not as a claim about the code; "
+               "nan/inf and 'g'+<text int() accepts but that is not "
                "ASCII digits> are outside the domain",
                "state between test cases is not reset (one Python process per worker): failures that depend on what "
                "earlier cases did are reported but may not replay alone; seq/hist/ops cases are self-contained"]
@@ -193,6 +196,15 @@ def _strip_pattern(tree):
     return lits, ranges, items[3][1]
 
 
+def _is_color_number(node):
+    """`color` or `int(color)`: the decimal digits of the colour id (the model: natDigits of the int value)"""
+    if isinstance(node, ast.Name):
+        return node.id == "color"
+    return (isinstance(node, ast.Call) and isinstance(node.func, ast.Name) and node.func.id == "int"
+            and len(node.args) == 1 and not node.keywords and isinstance(node.args[0], ast.Name)
+            and node.args[0].id == "color")
+
+
 def translate(repo):
     src = open(os.path.join(repo, "ak", "color.py")).read()
     tree = ast.parse(src)
@@ -244,7 +256,7 @@ def translate(repo):
             v = n.value.values
             if (len(v) == 3 and isinstance(v[0], ast.FormattedValue) and isinstance(v[0].value, ast.Name)
                     and v[0].value.id == "fg_bg_id" and isinstance(v[2], ast.FormattedValue)
-                    and isinstance(v[2].value, ast.Name) and v[2].value.id == "color"
+                    and _is_color_number(v[2].value)
                     and v[0].format_spec is None and v[2].format_spec is None
                     and v[0].conversion == -1 and v[2].conversion == -1):
                 ext = _const_str(v[1], "256-colour infix")
@@ -304,7 +316,7 @@ def _enc_comp(x):
     if isinstance(x, float):
         return _enc_float(x)
     if isinstance(x, bool):
-        raise ValueError("bool colour values are outside the domain")
+        return "b%d" % x
     return ("e%d" if isinstance(x, enum.IntEnum) else "s%d" if isinstance(x, IntSub) else "%d") % int(x)
 
 
@@ -314,7 +326,7 @@ def enc_color(v):
     if isinstance(v, str):
         return "s:" + enc_str(v)
     if isinstance(v, bool):
-        raise ValueError("bool colour values are outside the domain")
+        return "ib:%d" % v              # bool is an int subclass: True is colour 1, False colour 0
     if isinstance(v, int):
         return ("ie:%d" if isinstance(v, enum.IntEnum) else "is:%d" if isinstance(v, IntSub) else "i:%d") % int(v)
     if isinstance(v, float):
@@ -336,6 +348,8 @@ def _enc_float(v):
 
 
 def _dec_num(x):
+    if x[0] == "b":
+        return bool(int(x[1:]))
     if x[0] == "e":
         return int_enum(int(x[1:]))
     if x[0] == "s":
@@ -353,6 +367,8 @@ def dec_color(tok):
         return dec_str(rest)
     if k == "i":
         return int(rest)
+    if k == "ib":
+        return bool(int(rest))
     if k == "ie":
         return int_enum(int(rest))
     if k == "is":
@@ -884,10 +900,10 @@ def wanted_colour(v):
                 return ("bad",)
             return ("ok" if _CANON_GRAY.match(v) else "either", "x%d" % (232 + int(digits)))
         return ("bad",)
-    if isinstance(v, int) and not isinstance(v, bool):
-        return ("ok", "x%d" % v) if 0 <= v <= 255 else ("bad",)
+    if isinstance(v, int):             # bool included: an int kind (True = colour 1) since fix 6baf49c
+        return ("ok", "x%d" % int(v)) if 0 <= v <= 255 else ("bad",)
     if isinstance(v, tuple):
-        if len(v) == 3 and all(isinstance(c, int) and not isinstance(c, bool) and 0 <= c <= 5 for c in v):
+        if len(v) == 3 and all(isinstance(c, int) and 0 <= c <= 5 for c in v):
             return ("ok", "x%d" % (16 + 36 * v[0] + 6 * v[1] + v[2]))
         return ("bad",)
     return ("bad",)
@@ -1146,8 +1162,9 @@ def rand_valid_color(rng):
     v = _rand_valid_plain(rng)
     if rng.random() < 0.12 and not isinstance(v, (str, type(None))):
         if isinstance(v, int):
-            return rng.choice([int_enum, IntSub])(v)
-        return rng.choice([RGB(*v), TupleSub(v), tuple(rng.choice([int, int_enum, IntSub])(x) for x in v)])
+            return bool(v) if v in (0, 1) and rng.random() < 0.5 else rng.choice([int_enum, IntSub])(v)
+        return rng.choice([RGB(*v), TupleSub(v),
+                           tuple(bool(x) if x in (0, 1) and rng.random() < 0.3 else rng.choice([int, int_enum, IntSub])(x) for x in v)])
     return v
 
 
@@ -1481,6 +1498,14 @@ def gen_cases(rng, tier):
         for val in (RGB(*c), TupleSub(c), mixed):
             yield _case("fmt %s %s" % (spec_tokens(val, None), t0), "value-kinds")
         yield _case("fmt %s %s" % (spec_tokens(None, rng.choice([RGB(*c), TupleSub(c), RGB(*mixed)])), t0), "value-kinds")
+    for b in (True, False):
+        for eff in ("NNNNN", "TNNNT"):
+            yield _case("fmt %s %s" % (spec_tokens(b, None, eff), t0), "value-kinds")
+            yield _case("fmt %s %s" % (spec_tokens("RED", b, eff), t0), "value-kinds")
+            yield _case("bytes %s %s" % (spec_tokens(b, not b, eff), enc_bytes(b"ab")), "value-kinds")
+        yield _case("fmt %s %s" % (spec_tokens((b, 0, 5), (1, not b, b)), t0), "value-kinds")
+        yield _case("cht 2 %s %s %s %s" % (spec_tokens(b), enc_str("a"), spec_tokens(1 if b else 0), enc_str("b")), "value-kinds")
+        yield _case("seq 3 F %s - F %s - F %s -" % (spec_tokens(b), spec_tokens(int(b)), spec_tokens(b)), "value-kinds")
     for bad in [int_enum(-1), int_enum(256), IntSub(-1), IntSub(256), IntSub(10 ** 20), RGB(6, 0, 0), RGB(0, -1, 0),
                 RGB(1.0, 2, 3), TupleSub(()), TupleSub((1, 2)), TupleSub((1, 2, 3, 4)), TupleSub((0, 0, 6)),
                 (int_enum(6), 0, 0), (0, IntSub(-1), 0), TupleSub((1, 2.5, 3))]:
@@ -1682,6 +1707,8 @@ def search_cases(rng, tier):
 def corpus():
     """witnesses of the defect fixed by 0251bc8 (256-colour sequences were not stripped) and other fixed points"""
     return [_case(l, "corpus") for l in [
+        "fmt ib:1 N NNNNN F 120",            # 6baf49c: ColorFmt(True) emitted ESC[38:5:Truem
+        "cht 2 ib:1 ib:0 TNNNN F 97 N t:b1,0,b0 NNNNN F 98",
         "fmt i:123 N NNNNN 0 120",
         "fmt t:1,2,3 s:103,53 NNNNN 0 120",
         "cht 3 i:123 N NNNNN 0 97 P N NNNNN 0 98 s:82,69,68 s:103,50,51 TTTTT 0 99",
@@ -1871,17 +1898,20 @@ LEVEL_TEXT = ("Proved in Lean for all colour values (incl. floats and float tupl
               "g<digits> <= 23 -> 232+N} and raises ValueError otherwise; effect flags and no_color act through Python's truth "
               "value only (any kind of value; text and bytes formatters agree), wherever the call stands in a sequence of calls "
               "(the model of a process carries nothing but the formatter objects from call to call); the id-for-prefix "
-              "abstraction of the CHText model is proved sound for the palettes the driver accepts. model = code by "
+              "abstraction of the CHText model is proved sound for the palettes the driver accepts. Judged path (verdict): "
+              "mkSeq/mkChunk/mkSeqBytes/runCalls/strip and, for cht/make/hist/ops, renderGiven of the real object's own "
+              "chunk list (C09.given_shows, linked to value_shows by given_of_value); diagnostic path only: buildChunks / "
+              "histRun / CHText.eval (text_shows, strip_render, hist_shows, abstraction_sound). model = code by "
               "differential run (exhaustive over names x names, 256 ints, 216 triples, g0-g30, 3^5 effect settings, "
               "int/float pairs, small histories; random texts, part lists, call sequences, histories, operation trees, "
               "strings with ESC fragments).")
-LEVEL_NOTE = ("Kernel-checked: all 29 pinned theorems. Rest on the tie only: that the code has no state between calls / "
+LEVEL_NOTE = ("Kernel-checked: all 30 pinned theorems. JUDGED path of the driver (what the verdict compares): fmt/bytes/pfmt/seq/first lines run mkSeq/mkChunk/mkSeqBytes/runCalls (chunk_shows, chunk_resets, strip_chunk, bytes_same, valid_ok, invalid_raises, flags_by_truthiness, calls_stateless ...); cht/make/hist/ops lines run renderGiven/givenChunks/Given.ok on the real object's own chunk list (given_shows; given_of_value ties it to value_shows); strip lines run strip (strip_plain, strip_text). DIAGNOSTIC path only (chtm/histm/opsm twins, never in the verdict): buildChunks, renderText after histRun / CHText.eval - text_shows, strip_render, hist_shows, abstraction_sound are theorems about that model of what the operations produce (C08's subject), value_shows about every value. Rest on the tie only: that the code has no state between calls / "
               "renderings (the model has none by construction - C09.calls_stateless, C09.hist_shows say what that means; "
               "the seq and hist streams and the oracle's per-call judgement test it); what CHText operations produce is not "
               "judged here (C08): the rendering of the real object's own chunk list is (diagnostic twins compare the "
               "operations against Model/CHText.lean); Python's re, str.encode, int(). Trusted: Lean kernel, "
               "translator/adapter/oracle in harness/c09.py, and that real terminals implement SGR as Sgr.run (colon form "
-              "38:5:n). Out of domain by decision: bool/list colour values, tuples with non-numeric members, "
+              "38:5:n). Out of domain by decision (restriction of the check, no claim about the code): list/dict colour values and tuples with non-numeric members (TypeError instead of ValueError), "
               "'g+5'-style strings accepted by int(), object-lifetime effects (address reuse) across test cases.")
 TECHNIQUE = ("Lean 4 theorems (terminal state machine, induction over chunks; finite table facts decided by the kernel "
              "and lifted) + translator for tables/literals/regex class + exhaustive correspondence + independent Python "
